@@ -38,6 +38,7 @@ type chanCore struct {
 	cap    int
 	buf    []any
 	closed bool
+	isDone bool // a context's Done channel
 	NRecv  int // values dequeued (statistics for oracles)
 	NSend  int
 }
@@ -181,6 +182,11 @@ type Exec struct {
 	Aborted    bool
 	Trace      *strings.Builder // when non-nil every step is described here
 	KeyLast    bool             // include the last-run thread in Key (needed when preemptions are bounded)
+	// DonePriority restricts the exploration to the schedules in which a thread that can take a receive on a
+	// cancelled context's Done channel does so at once. It is used for liveness: under this restriction code
+	// that consults the context whenever it is about to proceed must terminate after cancel; an execution that
+	// runs into the horizon shows that the context is not consulted on that path.
+	DonePriority bool
 	Symmetry   bool             // identify states up to permutation of sibling library goroutines (see Key)
 	Cells      []*int           // shared cells (env.Shared) - part of the state
 	Watches    []Watcher        // evaluated by oracles on the terminal state
@@ -372,6 +378,19 @@ func (x *Exec) enabled() []transition {
 			if !solo && o.hasDefault {
 				ts = append(ts, transition{t: t, ci: -1})
 			}
+		}
+	}
+	if x.DonePriority {
+		var pri []transition
+		for _, tr := range ts {
+			if tr.ci >= 0 {
+				if c := tr.t.pending.cases[tr.ci]; c.dir == dirRecv && c.ch != nil && c.ch.isDone && c.ch.closed {
+					pri = append(pri, tr)
+				}
+			}
+		}
+		if len(pri) > 0 {
+			ts = pri
 		}
 	}
 	// canonical order: transitions of the last-run thread first, then by thread seq
